@@ -247,7 +247,7 @@ def unknown_payloads(draw, size="mixed"):
         hb = bytes([n >> 4, ((n & 0xF) << 4) | draw(st.integers(0, 15))])
         minlen = 2
     if size == "small":
-        ln = draw(st.integers(minlen, 40))
+        ln = draw(st.one_of(st.integers(minlen, 40), st.sampled_from([minlen, minlen, minlen + 1])))
     elif size == "big":
         ln = draw(st.sampled_from([1022, 1023, 1023]))
     else:
